@@ -2,10 +2,10 @@ from checks import searchfam
 
 
 def run(ctx):
-    searchfam.run_family(ctx, 1500, 20000)
+    searchfam.run_family(ctx, 1500, 100000)
     # alternative routes of the single-via algorithm (forward half + re-oriented reverse half)
     from lib import common
-    out = ctx.harness(["ksp", "--random", "400" if ctx.tier == "quick" else "6000", "--maxv", "8"], timeout=3000)
+    out = ctx.harness(["ksp", "--random", "400" if ctx.tier == "quick" else "30000", "--maxv", "8"], timeout=3000)
     ctx.validate("Trace_Ksp", common.split_scenarios(out), label="single-via alternatives")
     ctx.rule = ("scenario = seeded random network (2..N vertices on a milli-degree lattice, multigraph with self loops, "
                 "metric and non-metric lengths) x query x algorithm x cost/access/frontier/limit configuration biased "
